@@ -14,17 +14,23 @@
                   Expected(op, a_k, b_k) of the PRE-call values in every result cell, nothing else changes, and the changed
                   cells are the ones ChangedCells predicts; re-reading the broadcast element through a reference is shown
                   to differ (the alias modes of the conformance step are not vacuous).
-   par phase:     parcpy / parSetZero chunk arithmetic, sizes 0..12 x thread arguments -2..14.
+   par phase:     parcpy / parSetZero chunk arithmetic, sizes 0..12 x thread arguments -2..14, every delivered team 1..15.
+   samebase phase: operands a and b gathered from ONE array through two index lists (all pairs of 4-lane lists over 0..2,
+                  pairs of the selected 8-lane lists): replacing operand b by operand a (the op(x, x) reading of the call) is
+                  right in exactly the lanes where the two lists agree; the designation families partition the pairs as the
+                  trace specification expects; comparing half of the lanes does not decide "eq".
    table:         every row of Overloads17 is well-formed. *)
 EXTENDS Layout, Overloads17, ParChunks
-VARIABLES ph, od, cc, pc, ip
+VARIABLES ph, od, cc, pc, ip, sb
 
 NoOp == [d |-> Desc("none", "", FALSE), n |-> 4, s |-> 0, idx |-> <<>>]
 NoCall == [op |-> "copy", n |-> 4, a |-> NoOp, b |-> NoOp, c |-> NoOp]
 NoPar == [size |-> 0, t |-> 0]
 NoIp == [op |-> "add", n |-> 4, o |-> NoOp, bk |-> "array", aj |-> 0]
+NoSb == [op |-> "add", n |-> 4, ia |-> <<0, 0, 0, 0>>, ib |-> <<0, 0, 0, 0>>]
 Strides == {0, 1, 2, 3, 5}
-Idx8 == {<<0,1,2,3,4,5,6,7>>, <<7,6,5,4,3,2,1,0>>, <<3,3,3,3,3,3,3,3>>, <<0,2,4,6,8,10,12,14>>, <<5,0,5,1,9,9,2,0>>, <<1,0,3,2,5,4,7,6>>}
+Idx8 == {<<0,1,2,3,4,5,6,7>>, <<7,6,5,4,3,2,1,0>>, <<3,3,3,3,3,3,3,3>>, <<0,2,4,6,8,10,12,14>>, <<5,0,5,1,9,9,2,0>>, <<1,0,3,2,5,4,7,6>>,
+         <<0,1,2,3,7,6,5,4>>, <<3,2,1,0,4,5,6,7>>, <<0,1,2,3,4,5,6,9>>}
 IdxIn(n) == IF n = 4 THEN {<<0,1,2,3>>, <<3,1,0,2>>, <<2,2,0,5>>, <<4,4,4,4>>} ELSE {<<7,6,5,4,3,2,1,0>>, <<5,0,5,1,9,9,2,0>>}
 IdxOut(n) == IF n = 4 THEN {<<0,1,2,3>>, <<3,1,0,2>>, <<6,0,2,5>>} ELSE {<<1,0,3,2,5,4,7,6>>, <<0,2,4,6,8,10,12,14>>}
 
@@ -34,23 +40,27 @@ OperandCfgs(kind, n, strides, idxs) ==
     [] kind = "scalar" -> {[d |-> Desc("scalar", "", br), n |-> n, s |-> 0, idx |-> <<>>] : br \in BOOLEAN}
     [] OTHER           -> {[d |-> Desc(kind, "", FALSE), n |-> n, s |-> 0, idx |-> <<>>]}
 
-Init == ph = "start" /\ od = NoOp /\ cc = NoCall /\ pc = NoPar /\ ip = NoIp
-ChooseOperand == /\ ph = "start" /\ ph' = "operand" /\ UNCHANGED <<cc, pc, ip>>
+Init == ph = "start" /\ od = NoOp /\ cc = NoCall /\ pc = NoPar /\ ip = NoIp /\ sb = NoSb
+ChooseOperand == /\ ph = "start" /\ ph' = "operand" /\ UNCHANGED <<cc, pc, ip, sb>>
                  /\ \E n \in {4, 8}, kind \in InKinds :
                       od' \in OperandCfgs(kind, n, Strides, IF n = 4 THEN [1..4 -> 0..5] ELSE Idx8)
-ChooseCall == /\ ph = "start" /\ ph' = "call" /\ UNCHANGED <<od, pc, ip>>
+ChooseCall == /\ ph = "start" /\ ph' = "call" /\ UNCHANGED <<od, pc, ip, sb>>
               /\ \E n \in {4, 8}, op \in Ops, ka \in InKinds, kb \in InKinds \cup {"none"}, kc \in OutKinds :
                    /\ (op = "copy") = (kb = "none")
                    /\ \E a \in OperandCfgs(ka, n, {0, 2, 3}, IdxIn(n)), b \in OperandCfgs(kb, n, {0, 3}, IdxIn(n)),
                          c \in OperandCfgs(kc, n, {0, 1, 3}, IdxOut(n)) :
                         cc' = [op |-> op, n |-> n, a |-> a, b |-> b, c |-> c]
-ChoosePar == /\ ph = "start" /\ ph' = "par" /\ UNCHANGED <<od, cc, ip>>
+ChoosePar == /\ ph = "start" /\ ph' = "par" /\ UNCHANGED <<od, cc, ip, sb>>
              /\ \E size \in 0..12, t \in (-2)..14 : pc' = [size |-> size, t |-> t]
-ChooseInPlace == /\ ph = "start" /\ ph' = "inplace" /\ UNCHANGED <<od, cc, pc>>
+ChooseInPlace == /\ ph = "start" /\ ph' = "inplace" /\ UNCHANGED <<od, cc, pc, sb>>
                  /\ \E n \in {4, 8}, op \in {"add", "sub", "mul"}, kind \in MemKinds, bk \in {"array", "scalar"}, aj \in 0..7 :
                       /\ aj < n /\ (bk = "array" => aj = 0)
                       /\ \E o \in OperandCfgs(kind, n, {1, 2, 3}, IdxOut(n)) : ip' = [op |-> op, n |-> n, o |-> o, bk |-> bk, aj |-> aj]
-Next == ChooseOperand \/ ChooseCall \/ ChoosePar \/ ChooseInPlace
+ChooseSameBase == /\ ph = "start" /\ ph' = "samebase" /\ UNCHANGED <<od, cc, pc, ip>>
+                  /\ \E op \in {"add", "sub", "mul"} :
+                       \/ \E ia \in [1..4 -> 0..2], ib \in [1..4 -> 0..2] : sb' = [op |-> op, n |-> 4, ia |-> ia, ib |-> ib]
+                       \/ \E ia \in Idx8, ib \in Idx8 : sb' = [op |-> op, n |-> 8, ia |-> ia, ib |-> ib]
+Next == ChooseOperand \/ ChooseCall \/ ChoosePar \/ ChooseInPlace \/ ChooseSameBase
 
 TableOk == ph = "start" => \A id \in Ov17Ids : WellFormedRow(Ov17[id]) /\ Ov17[id].id = id
 
@@ -124,7 +134,28 @@ ASSUME LET c == [op |-> "add", n |-> 4, o |-> [d |-> Desc("contig", "", FALSE), 
            m0 == Fill(c.o, 4, 7)  bm == [k \in Lanes(4) |-> One8]
        IN SeqRun(c, m0, bm, 0, TRUE, <<0, m0>>) # SeqRun(c, m0, bm, 0, FALSE, <<0, m0>>)
 
-ParInv == ph = "par" => ParOk(pc.size, pc.t)
+ParInv == ph = "par" => ParOk(pc.size, pc.t) /\ \A team \in 1..15 : DeliveryOk(pc.size, pc.t, team)
+(* not vacuous: a piece per member, cut by the requested count, loses data when the delivered team is smaller *)
+ASSUME \E size \in 0..12, t \in 1..14 : PiecePerMember(size, t, Team(t, 1)) # 0..(size - 1) /\ PiecePerMember(size, t, Team(t, 0)) = 0..(size - 1)
+
+(* one array, two index lists.  The cells hold pairwise different non-zero residues, so op(x, x) and op(x, y) differ
+   whenever the two designated cells differ *)
+SameBaseInv ==
+  ph = "samebase" =>
+    LET n == sb.n
+        mem == [i \in 0..15 |-> OfInt(2 + i)]
+        av == [k \in 1..n |-> mem[sb.ia[k]]]  bv == [k \in 1..n |-> mem[sb.ib[k]]]
+        D == Differ(n, sb.ia, sb.ib)
+        Fams == {f \in {"eq", "h1", "h2", "perm"} : DesRel(f, n, sb.ia, sb.ib, 0)}
+    IN /\ SharedConsistent(n, sb.ia, sb.ib, av, bv)
+       /\ \A k \in Lanes(n) : (k \notin D) = ResultOk(sb.op, Expected(sb.op, av[k + 1], av[k + 1]), av[k + 1], bv[k + 1])
+       /\ DesRel("eq", n, sb.ia, sb.ib, 0) = (sb.ia = sb.ib)
+       /\ (DesRel("eq", n, sb.ia, sb.ib, 0) => Fams = {"eq"})
+       /\ ~(DesRel("h1", n, sb.ia, sb.ib, 0) /\ DesRel("h2", n, sb.ia, sb.ib, 0))
+       /\ \A k \in Lanes(n) : DesRel("one", n, sb.ia, sb.ib, k) = (D = {k})
+       /\ DesRel("eq", n, av, bv, 0) = DesRel("eq", n, sb.ia, sb.ib, 0)            \* distinct cells, distinct words
+(* not vacuous: two lists that agree in the first half of the lanes need not designate the same operands *)
+ASSUME \E ia \in Idx8, ib \in Idx8 : ia # ib /\ \A k \in 1..4 : ia[k] = ib[k]
 (* the cover invariant is not vacuous: without shortening the last chunk some configuration overruns *)
 ASSUME \E size \in 0..12, t \in 1..14 : ~ExactCover(size, t, FALSE)
 ====
